@@ -171,7 +171,8 @@ class _Frame:
 class KernelEval:
   """Symbolically evaluate one entry function."""
 
-  def __init__(self, sm: SourceModel, entry: FuncInfo, static_vals: Optional[Dict[str, Any]] = None, closure_bind: Optional[Dict[str, Any]] = None):
+  def __init__(self, sm: SourceModel, entry: FuncInfo, static_vals: Optional[Dict[str, Any]] = None, closure_bind: Optional[Dict[str, Any]] = None, param_consts: Optional[Dict[str, Any]] = None):
+    self.param_consts = dict(param_consts or {})
     self.sm = sm
     self.entry = entry
     self.static_vals = dict(static_vals or {})  # factory-param name -> python value (bool/int/enum tuple)
@@ -202,6 +203,8 @@ class KernelEval:
         env[a.arg] = ArrRef(a.arg, (), nd, dt)
       elif kind == "struct":
         env[a.arg] = self._struct_param(a.arg, dt)
+      elif a.arg in self.param_consts:
+        env[a.arg] = C(self.param_consts[a.arg])
       else:
         env[a.arg] = T("p", a.arg)
     closure = self._closure_for(fi)
@@ -619,6 +622,14 @@ class KernelEval:
         self._assign(fr, e, v, pc, st)
       return
     if isinstance(tgt, ast.Subscript):
+      er = self._elem_ref(fr, tgt.value, pc)
+      if er is not None:
+        # component store into an array element: arr[i, j][k] = v  (partial write of that element)
+        self._indices(fr, tgt.slice, pc)
+        for ar, eidx in er:
+          acc = self._access(fr, ar, eidx, "w", pc, tgt, value=UNK("component"), stmt=st)
+          acc.component = True
+        return
       base = self._expr(fr, tgt.value, pc, bound=True)
       idx = self._indices(fr, tgt.slice, pc)
       if isinstance(base, (ArrRef, list)):
@@ -652,6 +663,31 @@ class KernelEval:
       return
     raise AnalysisError(f"unsupported-construct {fr.fi.file}:{st.lineno} assignment target {type(tgt).__name__}")
 
+  def _elem_ref(self, fr, node, pc):
+    """If `node` is arr[...] (possibly through a row view) denoting one complete array element, return
+    [(ArrRef, index tuple)] without recording a read; else None."""
+    if not isinstance(node, ast.Subscript):
+      return None
+    b = node.value
+    if not isinstance(b, (ast.Name, ast.Attribute, ast.Subscript)):
+      return None
+    if isinstance(b, ast.Subscript):
+      # arr[w][i]: evaluate the inner view (never a complete element if the outer completes it)
+      inner = self._elem_ref(fr, b, pc)
+      if inner is not None:
+        return None
+    base = self._expr(fr, b, pc, bound=True, quiet=True)
+    refs = base if isinstance(base, list) else [base]
+    if not refs or not all(isinstance(r, ArrRef) for r in refs):
+      return None
+    idx = self._indices(fr, node.slice, pc)
+    out = []
+    for ar in refs:
+      if len(idx) != ar.remaining:
+        return None
+      out.append((ar, idx))
+    return out
+
   def _struct_store(self, fr, node, fn):
     # node is an Attribute chain ending in a struct field, e.g. pt.verts  (pt.verts[i] = v)
     if isinstance(node, ast.Attribute):
@@ -670,6 +706,14 @@ class KernelEval:
       fr.env[tgt.id] = self._bin(op, old, val)
       return
     if isinstance(tgt, ast.Subscript):
+      er = self._elem_ref(fr, tgt.value, pc)
+      if er is not None:
+        self._indices(fr, tgt.slice, pc)
+        for ar, eidx in er:
+          self._access(fr, ar, eidx, "r", pc, tgt, stmt=st)
+          acc = self._access(fr, ar, eidx, "w", pc, tgt, value=UNK("component"), stmt=st, rmw=True)
+          acc.component = True
+        return
       base = self._expr(fr, tgt.value, pc, bound=True)
       idx = self._indices(fr, tgt.slice, pc)
       if isinstance(base, (ArrRef, list)):
@@ -1405,5 +1449,5 @@ def returned_function(fi: FuncInfo) -> Optional[FuncInfo]:
   return rets[0] if rets else None
 
 
-def evaluate(sm: SourceModel, fi: FuncInfo, static_vals=None, closure_bind=None) -> KernelEval:
-  return KernelEval(sm, fi, static_vals, closure_bind).run()
+def evaluate(sm: SourceModel, fi: FuncInfo, static_vals=None, closure_bind=None, param_consts=None) -> KernelEval:
+  return KernelEval(sm, fi, static_vals, closure_bind, param_consts).run()
